@@ -21,7 +21,7 @@ import (
 	zz "github.com/haqq-network/haqq/zzverif"
 )
 
-//verif:override (*github.com/haqq-network/haqq/x/evm/keeper.Keeper).EVMConfig -> c05EVMConfig
+//verif:override (*github.com/haqq-network/haqq/x/evm/keeper.Keeper).EVMConfig -> c05EVMConfig except=VerifC07_ConfigBaseFeeIsTheAnteBaseFee
 //verif:override (*github.com/ethereum/go-ethereum/core/types.Transaction).AsMessage -> c05AsMessage
 
 var c05 struct {
